@@ -45,8 +45,8 @@ def gen_C01(tier, rng):
         for i in range(cnt):
             n = rng.randrange(mx + 1)
             yield (f"hash.{alg} {hx(_msg(rng, n, 0 if i % 8 else rng.randrange(4)))}", f"{alg}.random")
-        if tier == "thorough":
-            yield (f"hash.{alg} {hx(rng.rbytes(64 * 1024))}", f"{alg}.random")
+        # the upper end of the sampled range the property names (64 KiB), once per algorithm in both tiers
+        yield (f"hash.{alg} {hx(rng.rbytes(64 * 1024))}", f"{alg}.64KiB")
         # published vectors
         for m in (b"", b"a", b"abc", b"message digest", b"abcdefghijklmnopqrstuvwxyz",
                   b"abcdbcdecdefdefgefghfghighijhijkijkljklmklmnlmnomnopnopq",
@@ -80,16 +80,10 @@ def gen_C02(tier, rng):
     alpha = _alphabet(rng)
     depth = 3 if tier == "quick" else 4
     for alg in ALGS:
-        # exhaustive histories over the alphabet, each followed by `d;F;d` so that every history is observed and the
-        # state after finalize_reset is observed too.  Histories whose only effect is stack juggling are skipped
-        # at depth 4 (c/x need a later update or digest to matter, which the suffix provides anyway).
+        # exhaustive histories over the alphabet (17 symbols; quick: depth <= 3, thorough: depth <= 4 complete, 17^4 = 83521),
+        # each followed by `d;F;d` so that every history is observed and the state after finalize_reset is observed too.
         for dpt in range(1, depth + 1):
             for seq in itertools.product(alpha, repeat=dpt):
-                if dpt == 4:
-                    # thin the 17^4 = 83521 histories: keep update kinds mixed only on the first op (u vs m differ
-                    # only by ownership), all chunk lengths and all control ops everywhere
-                    if any(k == "u" for k, _ in seq[1:]):
-                        continue
                 yield (f"hctx.{alg} {_render(rng, seq)};d;F;d", f"{alg}.exhaustive.depth{dpt}")
         # split independence, directed: one message cut at every position around the block boundaries
         for total in (B - 1, B, B + 1, 2 * B, 2 * B + 3, 3 * B + 7):
